@@ -5,11 +5,13 @@ that the `fix:` commit removed; a repaired tree must not fail because a counter-
 
 pinned shape = what extraction yields on the tree before the fix:
   initAnchor = now, missAnchor = now   (`put(…, time.time())`, `put(…, now)`),   hitChecksType = false
+and, since the method binding of the call token was merged, no method check on a hit (hitChecksMethod = false): the
+call token opens only at its own method's endpoint, so a cold worker rejects a cross-method request as any bad token.
 -/
 namespace VgiVerif.C14.Findings
 open VgiVerif.C14 VgiVerif.Gen.C14
 
-def pinned : Shape := { initAnchor := .now, missAnchor := .now, hitChecksType := false }
+def pinned : Shape := { initAnchor := .now, missAnchor := .now, hitChecksType := false, hitChecksMethod := false }
 
 def cfgOf (sh : Shape) : Cfg :=
   { shape := sh, ttl := 10, tps := 1, declares := fun m t => m == t, decodes := fun _ _ => true }
@@ -19,36 +21,36 @@ def alice : Ident := .user "d".toList "alice".toList
 /-- DESIGN §7.1 row C14: init on worker 0 at t=0, continuation on worker 1 at t=9 (miss → re-`put` with `now + ttl`),
     then the next continuation at t=12 -/
 def expiryHist : List Step :=
-  [.init 0 alice 0 ⟨7, some 0⟩, .tick 9, .cont 1 ⟨alice, 0, .issued 0, .issued 0, false⟩, .tick 3]
+  [.init 0 alice 0 7 (some 0), .tick 9, .cont 1 ⟨alice, 0, .issued 0, .issued 0, false⟩, .tick 3]
 def expiryReq : Req := ⟨alice, 0, .issued 1, .issued 0, false⟩
 def expiryWorld (sh : Shape) : World := run (cfgOf sh) (World.start [2, 2, 2] 0) expiryHist
 
 /-- pinned: warm worker 1 serves the call, a cold worker rejects it as expired -/
 theorem expiry_misaligned :
-    (serveCont (cfgOf pinned) (expiryWorld pinned) 1 expiryReq).2 = .served 0 ⟨7, some 0⟩ ⟨0, alice, 9, 1, 0⟩ false ∧
-    (serveCont (cfgOf pinned) (expiryWorld pinned).emptied 1 expiryReq).2 = .rejected .callExpired := by
+    (serveCont (cfgOf pinned) (expiryWorld pinned) 1 expiryReq).2 = .served 0 ⟨7, some 0, 0⟩ ⟨0, alice, 9, 1, 0⟩ false ∧
+    (serveCont (cfgOf pinned) (expiryWorld pinned).emptied 1 expiryReq).2 = .rejected .tokenRejected := by
   decide +kernel
 
 /-- the same history on the repaired shape: both reject -/
 theorem expiry_aligned_after_fix :
-    (serveCont (cfgOf Gen.C14.shape) (expiryWorld Gen.C14.shape) 1 expiryReq).2 = .rejected .callExpired ∧
-    (serveCont (cfgOf Gen.C14.shape) (expiryWorld Gen.C14.shape).emptied 1 expiryReq).2 = .rejected .callExpired := by
+    (serveCont (cfgOf Gen.C14.shape) (expiryWorld Gen.C14.shape) 1 expiryReq).2 = .rejected .tokenRejected ∧
+    (serveCont (cfgOf Gen.C14.shape) (expiryWorld Gen.C14.shape).emptied 1 expiryReq).2 = .rejected .tokenRejected := by
   decide +kernel
 
 /-- a stream of method 0 (call-state class 0) continued at method 1's endpoint on the worker that served `/init` -/
-def crossHist : List Step := [.init 0 alice 0 ⟨7, some 0⟩]
+def crossHist : List Step := [.init 0 alice 0 7 (some 0)]
 def crossReq : Req := ⟨alice, 1, .issued 0, .issued 0, false⟩
 def crossWorld (sh : Shape) : World := run (cfgOf sh) (World.start [2, 2] 0) crossHist
 
-/-- pinned: a hit skips the declared-call-state-type check that the miss path applies -/
-theorem hit_skips_type_check :
-    (serveCont (cfgOf pinned) (crossWorld pinned) 0 crossReq).2 = .served 1 ⟨7, some 0⟩ ⟨0, alice, 0, 0, 0⟩ false ∧
-    (serveCont (cfgOf pinned) (crossWorld pinned).emptied 0 crossReq).2 = .rejected .callType := by
+/-- pinned: a hit skips what the miss path checks about the call (method binding, declared call-state type) -/
+theorem hit_skips_call_checks :
+    (serveCont (cfgOf pinned) (crossWorld pinned) 0 crossReq).2 = .served 1 ⟨7, some 0, 0⟩ ⟨0, alice, 0, 0, 0⟩ false ∧
+    (serveCont (cfgOf pinned) (crossWorld pinned).emptied 0 crossReq).2 = .rejected .tokenRejected := by
   decide +kernel
 
-theorem type_check_after_fix :
-    (serveCont (cfgOf Gen.C14.shape) (crossWorld Gen.C14.shape) 0 crossReq).2 = .rejected .callType ∧
-    (serveCont (cfgOf Gen.C14.shape) (crossWorld Gen.C14.shape).emptied 0 crossReq).2 = .rejected .callType := by
+theorem call_checks_after_fix :
+    (serveCont (cfgOf Gen.C14.shape) (crossWorld Gen.C14.shape) 0 crossReq).2 = .rejected .tokenRejected ∧
+    (serveCont (cfgOf Gen.C14.shape) (crossWorld Gen.C14.shape).emptied 0 crossReq).2 = .rejected .tokenRejected := by
   decide +kernel
 
 /-- hence the full statement of the spec is false of the pinned shape -/
@@ -65,7 +67,7 @@ theorem pinned_not_transparent : ¬ Spec.Transparent (deployment (cfgOf pinned))
     subst this; rfl
   have := h (World.start [2, 2, 2] 0) ⟨[2, 2, 2], 0, rfl⟩ expiryHist (1 : Nat) expiryReq hecho
   have h1 := expiry_misaligned
-  have e : (Outcome.served 0 ⟨7, some 0⟩ ⟨0, alice, 9, 1, 0⟩ false) = Outcome.rejected .callExpired :=
+  have e : (Outcome.served 0 ⟨7, some 0, 0⟩ ⟨0, alice, 9, 1, 0⟩ false) = Outcome.rejected .tokenRejected :=
     h1.1.symm.trans (this.trans h1.2)
   exact absurd e (by simp)
 
